@@ -29,6 +29,7 @@ type profile struct {
 	recut       int // partition: redraw the cut every recut steps
 	tmBoost     int
 	scriptDone  bool
+	holdPrecommits bool // lockstarve: non-nil precommits of rounds r0, r0+1 are held too (rounds fail although values get locked)
 	splitAtProp bool // byzantine proposer proposes different values to two halves whenever it is its turn
 }
 
@@ -52,6 +53,9 @@ func (s *sim) matchHold(f *flight) bool {
 			if m.kind == 'v' && !m.id.isNil && pr.victims&bit(f.to) == 0 {
 				return true
 			}
+		}
+		if pr.holdPrecommits && m.kind == 'c' && !m.id.isNil && m.h == pr.h0 && m.r <= pr.r0+1 {
+			return true
 		}
 	case "laggard":
 		return f.to == pr.laggard
@@ -123,7 +127,7 @@ func newSim(rt *rapid.T, c *stats.Case, bulk bool) *sim {
 		powers = [][]types.VotingPower{{1, 1, 1, 1}}
 		c.Label("cfg:n4f1")
 	} else {
-		n := rapid.IntRange(1, 7).Draw(rt, "n")
+		n := rapid.SampledFrom([]int{1, 2, 3, 3, 4, 4, 5, 5, 6, 6, 7, 7}).Draw(rt, "n")
 		k := rapid.SampledFrom([]int{0, 1, 1, 1, 2, 2, 3}).Draw(rt, "nbyz")
 		if k > n-1 {
 			k = n - 1
@@ -134,22 +138,33 @@ func newSim(rt *rapid.T, c *stats.Case, bulk bool) *sim {
 		if rapid.IntRange(0, 3).Draw(rt, "perheight") == 0 {
 			nvec = nh
 		}
-		// correct powers first; the faulty validators then share at most (Nc-1)/2 (<=> 3*b < b+Nc)
+		// correct powers first; the faulty validators then share at most (Nc-1)/2 (<=> 3*b < b+Nc). If the budget does
+		// not allow k faulty validators of power >= 1, the surplus ones become correct.
 		cp := make([][]int, nvec)
-		minBudget := 1 << 30
 		for hi := range cp {
-			cp[hi] = make([]int, nc)
-			sum := 0
-			for i := range cp[hi] {
-				cp[hi][i] = rapid.IntRange(1, maxp).Draw(rt, "cpower")
-				sum += cp[hi][i]
-			}
-			if b := (sum - 1) / 2; b < minBudget {
-				minBudget = b
+			for i := 0; i < nc; i++ {
+				cp[hi] = append(cp[hi], rapid.IntRange(1, maxp).Draw(rt, "cpower"))
 			}
 		}
-		if k > minBudget {
-			k = minBudget
+		budgetOf := func() int {
+			minBudget := 1 << 30
+			for hi := range cp {
+				sum := 0
+				for _, x := range cp[hi] {
+					sum += x
+				}
+				if b := (sum - 1) / 2; b < minBudget {
+					minBudget = b
+				}
+			}
+			return minBudget
+		}
+		for k > budgetOf() {
+			k--
+			nc++
+			for hi := range cp {
+				cp[hi] = append(cp[hi], rapid.IntRange(1, maxp).Draw(rt, "cpower"))
+			}
 		}
 		s.n = nc + k
 		// which indexes are faulty
@@ -314,8 +329,9 @@ func (s *sim) drawProfile() {
 			pr.wByz = 10
 		}
 	case "lockstarve":
-		pr.holdUntil = rapid.IntRange(20, 120).Draw(rt, "holdUntil")
+		pr.holdUntil = rapid.IntRange(30, 200).Draw(rt, "holdUntil")
 		pr.dropAtLift = rapid.Bool().Draw(rt, "dropAtLift")
+		pr.holdPrecommits = rapid.Bool().Draw(rt, "holdPrecommits")
 		pr.tmBoost = 3
 		// proposer of (h0,0) preferably correct
 		if rapid.IntRange(0, 3).Draw(rt, "lsCorrectProposer") > 0 {
@@ -393,7 +409,7 @@ func (s *sim) inject(m msg, mask uint64, why string) {
 		s.byzProps[k][m.id.h] = struct{}{}
 	}
 	for _, i := range s.correct {
-		if mask&bit(i) == 0 {
+		if mask&bit(i) == 0 || s.nodes[i].finished {
 			continue
 		}
 		s.tracef("#%d faulty validator sends %s -> validator %d  [%s]", s.step, s.mstr(m), i, why)
@@ -434,7 +450,8 @@ func (s *sim) drawID(h types.Height, label string, allowNil bool) idk {
 func (s *sim) byzStep() {
 	rt := s.rt
 	b := s.byz[rapid.IntRange(0, len(s.byz)-1).Draw(rt, "byz")]
-	tgt := s.nodes[s.correct[rapid.IntRange(0, len(s.correct)-1).Draw(rt, "byzTarget")]]
+	live := s.live()
+	tgt := s.nodes[live[rapid.IntRange(0, len(live)-1).Draw(rt, "byzTarget")]]
 	h := tgt.height
 	cur := tgt.rec(h).round
 	if cur < 0 {
@@ -505,7 +522,7 @@ func (s *sim) script() {
 	switch pr.name {
 	case "splitbrain":
 		// whenever a correct validator is in a round whose proposer is faulty and that proposer has not proposed yet
-		for _, i := range s.correct {
+		for _, i := range s.live() {
 			p := s.nodes[i]
 			r := p.rec(p.height).round
 			if r < 0 {
@@ -547,6 +564,16 @@ func (s *sim) script() {
 // Main loop
 // ---------------------------------------------------------------------------------------------------------
 
+func (s *sim) live() []int {
+	var l []int
+	for _, i := range s.correct {
+		if !s.nodes[i].finished {
+			l = append(l, i)
+		}
+	}
+	return l
+}
+
 func (s *sim) done() bool {
 	for _, i := range s.correct {
 		if s.nodes[i].height <= s.hEnd {
@@ -557,7 +584,7 @@ func (s *sim) done() bool {
 }
 
 func (s *sim) run() {
-	s.maxStep = rapid.IntRange(30, 400).Draw(s.rt, "steps")
+	s.maxStep = rapid.IntRange(60, 400).Draw(s.rt, "steps")
 	for _, i := range s.correct {
 		s.tracef("#start validator %d", i)
 		s.startHeight(s.nodes[i])
@@ -585,6 +612,9 @@ func (s *sim) run() {
 }
 
 func (s *sim) stepOnce() bool {
+	if s.done() {
+		return false
+	}
 	fw := make([]int, len(s.inflight))
 	fsum := 0
 	for i := range s.inflight {
@@ -648,7 +678,8 @@ func (s *sim) stepOnce() bool {
 	case 5:
 		// late re-delivery of anything a correct validator ever broadcast, to any correct validator (gossip re-send)
 		m := s.history[rapid.IntRange(0, len(s.history)-1).Draw(s.rt, "regossip")]
-		to := s.correct[rapid.IntRange(0, len(s.correct)-1).Draw(s.rt, "regossipTo")]
+		live := s.live()
+		to := live[rapid.IntRange(0, len(live)-1).Draw(s.rt, "regossipTo")]
 		s.tracef("#%d re-gossip %s -> validator %d", s.step, s.mstr(m), to)
 		s.c.Fp("g%c%d.%d.%d.%s.%d", m.kind, m.h, m.r, m.from, m.content(), to)
 		s.deliver(to, m)
